@@ -174,7 +174,7 @@ AES = (AE_NONE, AE_GZIP, AE_IDENTITY, AE_BR, AE_ZSTD, AE_DEFLATE)
 IMS_NONE, IMS_FRESH, IMS_STALE = 0, 1, 2
 U64 = 2**64 - 1
 # page configuration: (cache_on, pref_full, compress, kind, status)
-#   kind 0 = handler page, 1 = file read by kvarn, 2 = file streamed by extensions::stream_body()
+#   kind 0 = handler page, 1 = file read by kvarn, 2 = file streamed by extensions::stream_body(), 3 = query-keyed, 4 = vary
 CFG_FULL = (1, 1, 1, 0, 200)        # response cache, ServerCachePreference::Full, CompressPreference::Full
 CFG_NOCOMP = (1, 1, 0, 0, 200)      # cached, never compressed
 CFG_PREFNONE = (1, 0, 1, 0, 200)    # ServerCachePreference::None: every request runs the handler
@@ -184,7 +184,10 @@ CFG_STREAM = (1, 1, 0, 2, 200)      # public/f.txt streamed by stream_body(): ne
 CFG_404 = (1, 1, 1, 0, 404)         # the handler answers 404 (stored by the default status filter)
 CFG_403 = (1, 1, 0, 0, 403)         # ... 403 (not stored)
 CFG_500 = (1, 1, 0, 0, 500)         # ... 500 (stored)
-CFGS_200 = [CFG_FULL, CFG_NOCOMP, CFG_PREFNONE, CFG_NOCACHE, CFG_FILE]
+CFG_QUERY = (1, 1, 1, 3, 200)       # /p?x=1 with ServerCachePreference::QueryMatters: the cache entry is keyed by path and query
+CFG_VARY = (1, 1, 1, 4, 200)        # a vary rule on accept-language: a cached page without a variant for the request's value
+                                    # goes through handle_vary_missing (requests carry a 5th field, the language class)
+CFGS_200 = [CFG_FULL, CFG_NOCOMP, CFG_PREFNONE, CFG_NOCACHE, CFG_FILE, CFG_QUERY, CFG_VARY]
 CFGS_STATUS = [CFG_404, CFG_403, CFG_500]
 CFGS = CFGS_200 + [CFG_STREAM] + CFGS_STATUS
 CHUNK = 65536
@@ -252,9 +255,16 @@ def rq(m, ae, h, ims=IMS_NONE, before=()):
 
 
 def hist(cfg, bd, reprs, reqs, kind, prof="dev"):
+    if cfg[3] == 4:
+        # pages with a vary rule: the language class of a request is a function of its place and content (no rng here:
+        # the same history always gets the same classes); class 0 = no Accept-Language header
+        lang = lambda k, q: (k * 7 + len(q[2]) + q[0] + q[3]) % 3
+    else:
+        lang = None
     x = xl(xbool(prof == "dev"), cfg_x(cfg), xb(bd),
            xlist([xl(xopt(None if e is None else xb(e)), xb(b_)) for e, b_ in reprs]),
-           xlist([xl(xn(m), xn(ae), xlist([xb(h) for h in hs]), xn(ims)) for m, ae, hs, ims in reqs]))
+           xlist([xl(*([xn(q[0]), xn(q[1]), xlist([xb(h) for h in q[2]]), xn(q[3])] + ([xn(lang(k, q))] if lang else [])))
+                  for k, q in enumerate(reqs)]))
     p = (cfg, bd)
     c = Case("range.conn", x, "range.conn_spec" if cfg[4] == 200 else None, {"kind": kind}, prof)
     if p in _REPR_BAD:
